@@ -79,6 +79,9 @@ const JUNK: &[&[u8]] = &[
     b"-\xc3",
     b"-\xc3\xa9=v",
     b"-\xc3\xa9",
+    b"caf\xc3\xa9's",
+    b"\xc3\xa9a');touch x;#",
+    b"--na\xc3\xafve's",
     b"--x=\xff\xfe",
     b"word",
     b"w\xc3\xb6rd",
